@@ -29,7 +29,7 @@ def decimal (v : Bytes) : Nat := v.foldl (fun acc b => acc * 10 + (b.toNat - 48)
 def okNum (v : Bytes) : Bool := !v.isEmpty && v.all isDigit && decimal v < 256
 
 /-- the response a user is entitled to -/
-def expected (st : State) : Res Battalion.GameResponse :=
+def expected (st : State) : Res Games.GameResponse :=
   if st.info.appid != 489940 then .err .badGame
   else .ok
     { protocol := st.info.protocolVersion,
